@@ -1550,6 +1550,7 @@ func Exec(run *Run, ar *arena.Arena, va *arena.Vars, g *Globals, sites *SiteTabl
 			x.St.Probes["variables_in_guarded_pages"]++
 		}
 		hasScribble := false
+		var baseCopy []uint64
 		if len(run.Tasks) == 1 {
 			for _, o := range run.Tasks[0] {
 				if o.K == "scribble" {
@@ -1567,6 +1568,7 @@ func Exec(run *Run, ar *arena.Arena, va *arena.Vars, g *Globals, sites *SiteTabl
 				return x.finish()
 			}
 			x.base = ref.digest
+			baseCopy = ref.digest
 			x.all = nil
 			newDev()
 		}
@@ -1582,6 +1584,30 @@ func Exec(run *Run, ar *arena.Arena, va *arena.Vars, g *Globals, sites *SiteTabl
 		}
 		if x.base != nil && !x.abort && len(ts.digest) != len(x.base) {
 			x.fail(ts, len(run.Tasks[0])-1, nil, "M-scribble", "length", "the execution with caller writes made a different number of observations than the reference execution")
+		}
+		if x.viol != nil && x.viol.Monitor == "M-scribble" {
+			// the verdict rests on "the reference execution is what this history
+			// produces": check that a second reference execution agrees with the
+			// first. If it does not, the library is not a function of the history
+			// (hidden state), and the difference says nothing about buffers.
+			v := x.viol
+			x.viol, x.abort, x.base = nil, false, nil
+			x.dry = true
+			x.all = nil
+			newDev()
+			ref2 := x.newTask(0, run.NE, run.NS)
+			x.runTask(ref2, run.Tasks[0])
+			x.dry = false
+			same := x.viol == nil && len(ref2.digest) == len(baseCopy)
+			for k := 0; same && k < len(baseCopy); k++ {
+				same = ref2.digest[k] == baseCopy[k]
+			}
+			if same {
+				x.viol, x.abort = v, true
+			} else {
+				x.viol, x.abort = nil, false
+				x.St.Probes["scribble_reference_not_repeatable_verdict_withheld"]++
+			}
 		}
 		return x.finish()
 	}
